@@ -119,16 +119,7 @@ theorem sepLoop_chunks {α X : Type} (sep : P Unit) (elem : P α) (chunk : X →
 
 /-! ## items (elements of arrays, scalar values) -/
 
-inductive CItem where
-  | bare (s : Str)
-  | quoted (qs : List QChar)
 
-def CItem.str : CItem → Str
-  | .bare s => s
-  | .quoted qs => '"' :: (qstr qs ++ ['"'])
-def CItem.val : CItem → Str
-  | .bare s => s
-  | .quoted qs => qval qs
 def CItem.WF : CItem → Prop
   | .bare s => IsBare s
   | .quoted qs => ∀ q ∈ qs, q.WF
@@ -177,21 +168,8 @@ theorem parseItem_error {i : Str} (h : NoHead isWW i) (hq : ∀ t, i ≠ '"' :: 
 
 /-! ## values -/
 
-inductive CVal where
-  | scalar (it : CItem)
-  /-- `[` w0 item (wa `,` wb item)* w1 `]`, or `[` w0 w1 `]` -/
-  | list (w0 : Ws) (items : Option (CItem × List (Ws × Ws × CItem))) (w1 : Ws)
 
-def chunkItem (x : Ws × Ws × CItem) : Str := x.1.str ++ ',' :: (x.2.1.str ++ x.2.2.str)
 
-def CVal.str : CVal → Str
-  | .scalar it => it.str
-  | .list w0 none w1 => '[' :: (w0.str ++ (w1.str ++ [']']))
-  | .list w0 (some (it, more)) w1 => '[' :: (w0.str ++ (it.str ++ ((more.map chunkItem).flatten ++ (w1.str ++ [']']))))
-def CVal.vals : CVal → List Str
-  | .scalar it => [it.val]
-  | .list _ none _ => []
-  | .list _ (some (it, more)) _ => it.val :: more.map (fun x => x.2.2.val)
 def CVal.WF : CVal → Prop
   | .scalar it => it.WF
   | .list _ none _ => True
@@ -291,14 +269,7 @@ theorem parseValue_ok (v : CVal) (h : v.WF) (rest : Str) (hr : NW rest) :
 
 /-! ## properties -/
 
-structure CProp where
-  key : Str
-  wa : Ws
-  wb : Ws
-  val : CVal
 
-def CProp.str (p : CProp) : Str := p.key ++ (p.wa.str ++ '=' :: (p.wb.str ++ p.val.str))
-def CProp.kv (p : CProp) : Str × List Str := (p.key, p.val.vals)
 def CProp.WF (p : CProp) : Prop := IsIdent p.key ∧ p.val.WF
 
 /-- **property** `key = value` with any whitespace around `=` -/
